@@ -17,8 +17,8 @@ use std::sync::atomic::Ordering as AO;
 use std::sync::{Arc, Mutex};
 use std::time::{Duration, Instant};
 
-fn start_watchdog() {
-    std::thread::spawn(|| {
+fn start_watchdog(limit_s: u32) {
+    std::thread::spawn(move || {
         let mut last = 0u64;
         let mut same = 0u32;
         loop {
@@ -30,8 +30,8 @@ fn start_watchdog() {
                 same = 0;
             }
             last = h;
-            if same >= 20 {
-                eprintln!("WATCHDOG: one operation has been running for more than 20 s");
+            if same >= limit_s {
+                eprintln!("WATCHDOG: one operation has been running for more than {} s", limit_s);
                 std::process::exit(97);
             }
         }
@@ -83,8 +83,10 @@ pub fn cmd_worker(args: &Args) -> i32 {
     let start = args.num("start", 0);
     let hashes = args.get("hashes").is_some();
     let hash_file = args.get("hashfile").map(|s| s.to_string());
+    runner::apply_tier_limits(args.get("tier"));
     install_panic_hook(false);
-    start_watchdog();
+    // first-level hang detection: a worker that stalls is re-examined alone with a longer limit
+    start_watchdog(args.num("watchdog", 6) as u32);
     let stdout = std::io::stdout();
     let mut out = stdout.lock();
     let mut ctx = RunCtx::new();
@@ -193,12 +195,44 @@ pub fn cmd_trace_run(args: &Args) -> i32 {
     let run = args.num("run", 0);
     let log = args.get("log").unwrap_or("/dev/null").to_string();
     install_panic_hook(false);
-    start_watchdog();
+    start_watchdog(args.num("watchdog", 40) as u32);
     let mut ctx = RunCtx::new();
     ctx.trace_log = open_log(&log);
     let rep = runner::run_property(&prop, seed, run, thorough, &mut ctx);
     print_outcome(&rep.outcome, &rep.trace.steps);
     0
+}
+
+/// Write the recorded trace of one generated run as a replay file (used for
+/// failures that only an external engine - Miri - can see).
+pub fn cmd_dump_trace(args: &Args) -> i32 {
+    let prop = args.get("prop").unwrap_or("").to_string();
+    let thorough = args.get("tier") == Some("thorough");
+    let seed = args.num("seed", 1);
+    let run = args.num("run", 0);
+    let out = match args.get("out") {
+        Some(o) => o.to_string(),
+        None => return 2,
+    };
+    runner::apply_tier_limits(args.get("tier"));
+    install_panic_hook(false);
+    let mut ctx = RunCtx::new();
+    let rep = runner::run_property(&prop, seed, run, thorough, &mut ctx);
+    let file = J::obj()
+        .set("property", J::s(&prop))
+        .set("seed", J::u(seed))
+        .set("run", J::u(run))
+        .set("engine", J::s(args.get("engine").unwrap_or("native")))
+        .set("expect_sig", J::s(args.get("sig").unwrap_or("")))
+        .set("note", J::s(args.get("note").unwrap_or("")))
+        .set("trace", rep.trace.to_json());
+    match std::fs::write(&out, file.pretty()) {
+        Ok(_) => 0,
+        Err(e) => {
+            eprintln!("HARNESS: cannot write {}: {}", out, e);
+            2
+        }
+    }
 }
 
 /// Execute a trace file in trace mode.
@@ -216,7 +250,7 @@ pub fn cmd_exec(args: &Args) -> i32 {
         }
     };
     install_panic_hook(false);
-    start_watchdog();
+    start_watchdog(args.num("watchdog", 40) as u32);
     let mut ctx = RunCtx::new();
     ctx.trace_log = open_log(&log);
     let (out, executed) = runner::replay(&trace, &mut ctx);
@@ -385,7 +419,7 @@ fn run_pool(prop: &str, tier: &str, seed: u64, workers: u64, runs: u64, hashes: 
                     Some(r) => {
                         pool.lock().unwrap().crashes.push((r, code, sig));
                         crashes_here += 1;
-                        if crashes_here >= 40 {
+                        if crashes_here >= 8 {
                             // a badly broken tree: enough material, stop exploring this slot
                             return;
                         }
@@ -419,6 +453,33 @@ fn count_distinct_hashes(tag: &str, workers: u64) -> u64 {
     all.sort_unstable();
     all.dedup();
     all.len() as u64
+}
+
+/// Number of coloured shapes of valid red-black trees (red root allowed) with n entries,
+/// n = 0..=max_n, by dynamic programming over (size, black height, root colour).
+fn valid_rb_shapes(max_n: usize) -> Vec<u128> {
+    let max_h = 8usize;
+    // black[n][h], red[n][h]
+    let mut black = vec![vec![0u128; max_h + 1]; max_n + 1];
+    let mut red = vec![vec![0u128; max_h + 1]; max_n + 1];
+    black[0][0] = 1; // the empty tree counts as a black leaf of black height 0
+    for n in 1..=max_n {
+        for h in 0..=max_h {
+            // red root: both subtrees black-rooted (or empty) with black height h
+            let mut r = 0u128;
+            let mut b = 0u128;
+            for l in 0..n {
+                let rr = n - 1 - l;
+                r += black[l][h] * black[rr][h];
+                if h >= 1 {
+                    b += (black[l][h - 1] + red[l][h - 1]) * (black[rr][h - 1] + red[rr][h - 1]);
+                }
+            }
+            red[n][h] = r;
+            black[n][h] = b;
+        }
+    }
+    (0..=max_n).map(|n| (0..=max_h).map(|h| black[n][h] + red[n][h]).sum()).collect()
 }
 
 fn default_workers() -> u64 {
@@ -607,8 +668,10 @@ pub fn cmd_check(args: &Args) -> i32 {
         *shapes_by_n.entry(*n).or_insert(0) += 1;
     }
     let mut shapes_j = J::obj();
+    let valid = valid_rb_shapes(12);
     for (n, c) in &shapes_by_n {
-        shapes_j.put(&format!("n={}", n), J::u(*c));
+        let v = valid.get(*n as usize).copied().unwrap_or(0);
+        shapes_j.put(&format!("n={}", n), J::s(&format!("{} reached of {} valid coloured shapes", c, v)));
     }
     let samples: Vec<J> = pool.samples.iter().take(3).cloned().collect();
     let samples = if samples.is_empty() { vec![J::s("(no run of at least 4 steps in worker 0)")] } else { samples };
